@@ -326,7 +326,7 @@ func (e *Engine) evalEmitOnce(runs []emitRun) []emitObl {
 				}
 			}
 			ok := all["in.mp0.Key"] && all["in.mp1.Key"] && all["in.mp2.Key"]
-			add(base+":pair", []string{"C05"}, ok, "every key of the match table must reach the dispatch code")
+			add(base+":pair", []string{"C05", "C02"}, ok, "every key of the match table must reach the dispatch code")
 		}
 		if r.cell.LenAttr && r.entry.Dir == "enc" {
 			all := map[string]bool{}
